@@ -135,6 +135,27 @@ Example C05_illformed_rejected_by_wf_ids_b :
   wf_ids_b (mkS [mkT 1%Z None [1] [] [] None false None [] None; mkT 1%Z (Some 0) [] [] [] None false None [] None] []) = false.
 Proof. vm_compute. reflexivity. Qed.
 
+(* ---- the tie to the source text: the walks behind the id check and behind WBS.tasks --------------------------------
+   gen/SrcGraph.v is produced on every run by harness/srcgen from the *current source text* of task.py: _find_root (raw
+   parents up to the root), _collect_subtree and the generator of Task.__get_all_children (preorder of the descendants:
+   each child directly followed by its descendants, siblings in list order - the order of WBS.tasks) are the model's
+   [rootof] and [pref] for every heap, task and fuel. *)
+From PJ Require Import gen.SrcGraph Graph.SrcGraphEquiv.
+
+Theorem C05_src_find_root : forall h t,
+  src_find_root h t = match rootof h t with Some r => Ok r | None => Crash OutOfFuel end.
+Proof. exact src_find_root_eq. Qed.
+
+Theorem C05_src_get_children : forall n h t, src_get_children (S n) h t = lift_walk (pref n h t).
+Proof. exact src_get_children_eq. Qed.
+
+Theorem C05_src_all_children : forall h t, src_all_children (S (length h)) h t = all_children h t.
+Proof. exact src_all_children_eq. Qed.
+
+Theorem C05_src_collect_subtree : forall n h t,
+  src_collect_subtree (S n) h t = match pref n h t with Some l => Ok (t :: l) | None => Crash RecursionError end.
+Proof. exact src_collect_subtree_eq. Qed.
+
 Print Assumptions C05_unique.
 Print Assumptions C05_unique_below.
 Print Assumptions C05_unique_wbs.
@@ -153,3 +174,7 @@ Print Assumptions C05_demo_duplicate_rejected.
 Print Assumptions C05_demo_bulk.
 Print Assumptions C05_demo_lookup.
 Print Assumptions C05_illformed_rejected_by_wf_ids_b.
+Print Assumptions C05_src_find_root.
+Print Assumptions C05_src_get_children.
+Print Assumptions C05_src_all_children.
+Print Assumptions C05_src_collect_subtree.
